@@ -32,7 +32,8 @@ func (h *ZnHttpHandler) ServeHTTP(w http.ResponseWriter, r *http.Request) {
 		"当前请求": reqObj,
 	}
 	// execute code
-	rtnValue, err := h.interpreter.LoadFile(h.entryFile).Execute(varInput)
+	// (requests are served concurrently: never load code into the shared interpreter)
+	rtnValue, err := h.interpreter.Fork().LoadFile(h.entryFile).Execute(varInput)
 	sendHTTPResponse(rtnValue, err, w)
 }
 
